@@ -7,6 +7,7 @@ PID = 'C08'
 TARGETS = ['Properties/C08.vo', 'Bridge/MoveBridge.vo', 'Bridge/CodegenBridge.vo', 'Bridge/RefBridge.vo', 'Bridge/PlumbingBridge.vo', 'Bridge/ErrorsBridge.vo']
 KERNELS = ['G4_seq', 'G11_codegen', 'G16_ref', 'G16b_optional', 'G17_builder', 'G18_conditions', 'G9_errors']
 PROP_FILE = 'Properties/C08.v'
+WHOLE_PACKET = True      # Tie A over all of the pack / unpack machinery (check.py: WHOLE_PACKET_KERNELS)
 
 
 def check_value(table, v, out, path=''):
